@@ -38,12 +38,12 @@ Notation tstep code := (tstep St exec flag_set trainer_beaten cmp_var cmp_var_va
    simulations).  No premise speaks about the chunk graph any more: Lemma 1 (worklist => tr_block), lemma 2 (graph_sim) and
    lemma 3 (render_step) are unconditional; the two remaining executable premises concern the rendered text (wf_render) and
    the user labels (labels_okb); src_okb and scoped are properties of the parser's output. *)
-Theorem emit_script_correct
+Theorem emit_script_correct_src
   (mp : option text) (tl : list text) (name : text) (glob optimize : bool) (body : list stmt)
   (w : wst) (code : list instr) :
   emit_graph body = Ok w ->
   emit_script mp tl name glob optimize body = Ok code ->
-  src_okb body = true ->
+  src_ok body ->
   wf_render mp name (finals w) (order_of optimize (finals w)) code = true ->
   labels_okb body (finals w) = true ->
   scoped None None body ->
@@ -53,7 +53,7 @@ Theorem emit_script_correct
       res_le (run (@tfinal) (tstep code) m (jump code name) s) (run sfinal (sstep (fun l => fl_body l body Kstop)) n (enter body Kstop) s)).
 Proof.
   intros HW HE HS HR HL HSC.
-  destruct (worklist_establishes_tr_block body w HW (src_okb_sound body HS)) as (TB & GI & _).
+  destruct (worklist_establishes_tr_block body w HW HS) as (TB & GI & _).
   unfold labels_okb in HL. apply andb_prop in HL. destruct HL as [HL L3]. apply andb_prop in HL. destruct HL as [L1 L2].
   assert (LA : label_lookup_agrees St exec flag_set trainer_beaten cmp_var cmp_var_value case_matches (finals w) (brk w) (org w) (fun l => fl_body l body Kstop)).
   { eapply label_lookup_agrees_holds; eauto.
@@ -69,6 +69,21 @@ Proof.
   - intros m s. destruct (BW m s) as (n1 & R1). destruct (GS n1 s) as (m1 & LE & R2).
     exists n1. eapply res_le_trans; [exact R1|]. rewrite R2. apply run_mono. exact LE.
 Qed.
+
+Corollary emit_script_correct
+  (mp : option text) (tl : list text) (name : text) (glob optimize : bool) (body : list stmt)
+  (w : wst) (code : list instr) :
+  emit_graph body = Ok w ->
+  emit_script mp tl name glob optimize body = Ok code ->
+  src_okb body = true ->
+  wf_render mp name (finals w) (order_of optimize (finals w)) code = true ->
+  labels_okb body (finals w) = true ->
+  scoped None None body ->
+  (forall n s, exists m,
+      run sfinal (sstep (fun l => fl_body l body Kstop)) n (enter body Kstop) s = run (@tfinal) (tstep code) m (jump code name) s) /\
+  (forall m s, exists n,
+      res_le (run (@tfinal) (tstep code) m (jump code name) s) (run sfinal (sstep (fun l => fl_body l body Kstop)) n (enter body Kstop) s)).
+Proof. intros HW HE HS HR HL HSC. eapply emit_script_correct_src; eauto. apply src_okb_sound. exact HS. Qed.
 
 (* C05 (a): -optimize changes layout only *)
 Corollary optimize_equiv
